@@ -26,6 +26,9 @@ pub static TOK_LIVE: std::sync::atomic::AtomicI64 = std::sync::atomic::AtomicI64
 pub static TOK_EPOCH: std::sync::atomic::AtomicU64 = std::sync::atomic::AtomicU64::new(0);
 
 pub fn log(ev: serde_json::Value) {
+    if std::env::var("LOGDEBUG").is_ok() {
+        eprintln!("LOG {}", ev);
+    }
     CUR.with(|c| c.borrow_mut().push(ev.to_string()));
 }
 
@@ -41,10 +44,19 @@ pub fn finish_exec(end: serde_json::Value) {
     let mut end = end;
     end["tlslive"] = json!(TLS_LIVE.swap(0, std::sync::atomic::Ordering::SeqCst));
     let tok = TOK_LIVE.swap(0, std::sync::atomic::Ordering::SeqCst);
+    if std::env::var("TOKDEBUG").is_ok() {
+        eprintln!("TOK finish epoch={} live={} end={}", TOK_EPOCH.load(std::sync::atomic::Ordering::SeqCst), tok, end);
+    }
     TOK_EPOCH.fetch_add(1, std::sync::atomic::Ordering::SeqCst);
     // a failing execution leaks its unfinished tasks by design (ungraceful shutdown): only clean ends are accounted
     if end["v"] == "ok" || end["v"] == "stopped" {
         end["toklive"] = json!(tok);
+        // An earlier execution of this run was abandoned while a task was unwinding from a panic: that unwinding never
+        // finished, so std::thread::panicking() stays true on this OS thread and the runtime treats every later
+        // teardown as a panicking one (in-flight stacks are leaked instead of unwound).
+        if std::thread::panicking() {
+            end["degraded"] = json!(1);
+        }
     }
     log(end);
     // the runtime's own record of this execution (still in place until the next execution starts)
